@@ -47,6 +47,10 @@ class SThread(object):
     def start(self):
         if self.started:
             raise RuntimeError("threads can only be started once")
+        # the moment before the thread exists for others is a scheduling point of its own
+        self.sched.yield_point("before_start")
+        if self.started:
+            raise RuntimeError("threads can only be started once")
         self.started = True
         self.real = real_threading.Thread(target=self._bootstrap, daemon=True)
         self.real.start()
@@ -119,6 +123,9 @@ class SLock(object):
             for t in self.sched.threads:
                 if t.blocked_on is self:
                     t.blocked_on = None
+            # leaving a critical section is a scheduling point
+            if self.sched.me() is not None and not self.sched.aborted:
+                self.sched.yield_point("unlock")
 
     __enter__ = acquire
 
@@ -291,24 +298,31 @@ def preemptions(decisions):
 
 
 def explore(run_once, bound, limit=None):
-    """Bounded exhaustive DFS over choice sequences.
+    """Bounded exhaustive search over choice sequences, by increasing number of preemptions.
 
-    run_once(choices) -> decisions list of the executed schedule.  Yields nothing; calls
-    run_once for every schedule whose number of preemptions is <= bound.  Returns count."""
-    stack = [[]]
+    run_once(choices) -> decisions list of the executed schedule.  Calls run_once for every
+    schedule whose number of preemptions is <= bound: first the schedule without preemption,
+    then all with one, then all with two, ... (breadth first in the number of preemptions and
+    in the position of the last one), until ``limit`` runs were made.  Returns the count."""
+    import collections
     count = 0
-    while stack:
-        prefix = stack.pop()
-        decisions = run_once(prefix)
-        count += 1
-        if limit is not None and count >= limit:
-            break
-        chosen = [d[1] for d in decisions]
-        for i in range(len(prefix), len(decisions)):
-            n, idx, cur_runnable = decisions[i]
-            for alt in range(1, n):
-                new = chosen[:i] + [alt]
-                pre = preemptions(decisions[:i]) + (1 if cur_runnable else 0)
-                if pre <= bound:
-                    stack.append(new)
+    level = collections.deque([[]])
+    for depth in range(bound + 1):
+        nxt = collections.deque()
+        while level:
+            prefix = level.popleft()
+            decisions = run_once(prefix)
+            count += 1
+            if limit is not None and count >= limit:
+                return count
+            chosen = [d[1] for d in decisions]
+            for i in range(len(prefix), len(decisions)):
+                n, idx, cur_runnable = decisions[i]
+                for alt in range(1, n):
+                    new = chosen[:i] + [alt]
+                    if cur_runnable:
+                        nxt.append(new)          # one more preemption: next level
+                    else:
+                        level.append(new)        # a forced switch to another thread is free
+        level = nxt
     return count
